@@ -255,14 +255,57 @@ def _resolve_delay_expr(ctx, ring, e: ast.AST, vdefs, guard) -> List[dict]:
         ok_guard = False
         if guard is not None:
             test, arm = guard
-            if isinstance(test, ast.Compare) and len(test.ops) == 1 and isinstance(test.left, ast.Call) and call_name(test.left) == "len" \
-                    and ast.unparse(test.left.args[0]) == p and isinstance(test.comparators[0], ast.Constant) and test.comparators[0].value == 1:
-                ok_guard = (isinstance(test.ops[0], ast.Eq) and arm) or (isinstance(test.ops[0], ast.NotEq) and not arm)
+            verdict = _len_is_one(ctx, f, test, p)
+            if verdict == "unknown":
+                raise AnalysisError(f"{where}: guard `{ast.unparse(test)}` of `{ast.unparse(e)}` involves len({p}) in an unrecognised form")
+            ok_guard = verdict is not None and verdict == arm
         return [{"kind": "first", "param": p, "guarded_by_len_1": ok_guard}]
     t = U.render(ctx, f, e)
     if t is not None:
         return _resolve_registered(ctx, ring, t, vdefs)
     raise AnalysisError(f"{where}: read index expression `{ast.unparse(e)}` has an unrecognised form")
+
+
+def _len_is_one(ctx, f, test, p: str):
+    """Arm (True = body) of `test` on which len(p) == 1 holds: `len(p) == 1`, `1 == len(p)`, `len(p) != 1` (other arm), `len(p) < 2`,
+    `len(p) <= 1`, `len(p) > 1`/`>= 2` (other arm), `not ...`, with the length possibly held in a local.  None: the test is not about
+    len(p); 'unknown': it is, in an unrecognised way."""
+    neg = False
+    while isinstance(test, ast.UnaryOp) and isinstance(test.op, ast.Not):
+        test, neg = test.operand, not neg
+
+    def is_len(x, depth=0):
+        if isinstance(x, ast.Call) and call_name(x) == "len" and len(x.args) == 1 and isinstance(x.args[0], ast.Name) and x.args[0].id == p \
+                and U.is_param(ctx, f, x.args[0]):
+            return True
+        if isinstance(x, ast.Name) and depth < 3:
+            v = U.single_value(ctx, f, x)
+            return v is not None and is_len(v, depth + 1)
+        return False
+
+    about = any(is_len(x) for x in ast.walk(test) if isinstance(x, (ast.Call, ast.Name)))
+    if not about:
+        return None
+    if isinstance(test, ast.Compare) and len(test.ops) == 1:
+        l, op, r = test.left, test.ops[0], test.comparators[0]
+        flip = {ast.Lt: ast.Gt, ast.Gt: ast.Lt, ast.LtE: ast.GtE, ast.GtE: ast.LtE}
+        if is_len(r) and isinstance(l, ast.Constant):
+            l, r = r, l
+            op = flip.get(type(op), type(op))()
+        if is_len(l) and isinstance(r, ast.Constant) and isinstance(r.value, int):
+            c = r.value
+            arm = None
+            if isinstance(op, ast.Eq) and c == 1:
+                arm = True
+            elif isinstance(op, ast.NotEq) and c == 1:
+                arm = False
+            elif (isinstance(op, ast.Lt) and c == 2) or (isinstance(op, ast.LtE) and c == 1):
+                arm = True          # the function returns early on empty `delays`
+            elif (isinstance(op, ast.Gt) and c == 1) or (isinstance(op, ast.GtE) and c == 2):
+                arm = False
+            if arm is not None:
+                return arm != neg
+    return "unknown"
 
 
 def _buffer_shape(ctx, ring: Ring, buf: str, vdefs) -> ast.Tuple:
@@ -790,8 +833,55 @@ def r4_default_delay_matches_write_slot(ctx, rid):
 ROLE_OF_KEY = {"delay": "delays", "spread": "spreads", "source_idx": "nodes"}
 
 
+def _unzip_of(ctx, f, e: ast.Name):
+    """`e` (a returned list) is produced after the per-edge loop by unzipping a list of per-edge tuples:
+    L.append((a, b, c)) in the loop, then `e = [x for a, _, _ in L for x in a]` (flattening) or `e = [c for _, _, c in L]`.
+    -> dict(stage=L, pos=i, value=<tuple element i at the append>, stmt=<the comprehension's statement>, reordered=bool) or None."""
+    defs = [d for d in ctx.rd(f).defs_reaching(e) if isinstance(d, ast.stmt)]
+    vals = [(d, assigned_value(d, e.id)) for d in defs]
+    vals = [(d, v) for d, v in vals if not (isinstance(v, ast.Constant) and v.value is None)]
+    if len(vals) != 1 or vals[0][1] is None:
+        return None
+    st, v = vals[0]
+    if isinstance(v, ast.Call) and call_name(v) == "list" and len(v.args) == 1 and isinstance(v.args[0], ast.GeneratorExp):
+        v = v.args[0]
+    if not isinstance(v, (ast.ListComp, ast.GeneratorExp)) or not 1 <= len(v.generators) <= 2:
+        return None
+    g0 = v.generators[0]
+    it, reordered = g0.iter, False
+    while isinstance(it, ast.Call) and call_name(it) in U.REORDERERS | {"list", "tuple"} and len(it.args) >= 1:
+        reordered = reordered or call_name(it) in U.REORDERERS
+        it = it.args[0]
+    if isinstance(it, ast.Subscript) and isinstance(it.slice, ast.Slice) and isinstance(it.value, ast.Name):
+        sl = it.slice
+        reordered = reordered or not (sl.lower is None and sl.upper is None and sl.step is None)
+        it = it.value
+    if not isinstance(it, ast.Name) or U.is_param(ctx, f, it):
+        return None
+    if any(g.ifs for g in v.generators):
+        raise AnalysisError(f"{f.qual}: `{norm(st)}` filters the per-edge entries (unrecognised form)")
+    if not isinstance(g0.target, (ast.Tuple, ast.List)) or not all(isinstance(t, ast.Name) for t in g0.target.elts):
+        return None
+    bound = [t.id for t in g0.target.elts]
+    if len(v.generators) == 1:
+        used, shape_ok = v.elt, isinstance(v.elt, ast.Name)
+    else:
+        g1 = v.generators[1]
+        used = g1.iter
+        shape_ok = isinstance(g1.iter, ast.Name) and isinstance(g1.target, ast.Name) and isinstance(v.elt, ast.Name) and v.elt.id == g1.target.id
+    if not shape_ok or used.id not in bound or bound.count(used.id) != 1:
+        raise AnalysisError(f"{f.qual}: `{norm(st)}` does not pick one component of the per-edge tuples of `{it.id}` (unrecognised form)")
+    pos = bound.index(used.id)
+    muts = U.mutations_of(f, it.id)
+    if len(muts) != 1 or muts[0].func.attr != "append" or len(muts[0].args) != 1 or not isinstance(muts[0].args[0], ast.Tuple) \
+            or len(muts[0].args[0].elts) != len(bound):
+        raise AnalysisError(f"{f.qual}: the per-edge list `{it.id}` is not filled by exactly one append of a {len(bound)}-tuple (unrecognised form)")
+    return {"stage": it.id, "pos": pos, "value": muts[0].args[0].elts[pos], "stmt": st, "reordered": reordered}
+
+
 def _collector_roles(ctx, f):
-    """Return-tuple position -> role ('delays' / 'spreads' / 'nodes') of _collect_delays_from_edges, plus the per-edge loop."""
+    """Return-tuple position -> role ('delays' / 'spreads' / 'nodes') of _collect_delays_from_edges.  accs: role -> how the
+    returned list is accumulated: {'name': the list extended once per edge, 'unzip': _unzip_of(...) or None}."""
     rets = [s for s in walk_shallow(f.node) if isinstance(s, ast.Return)]
     if len(rets) != 1 or not isinstance(rets[0].value, ast.Tuple):
         raise AnalysisError(f"{f.qual}: expected one `return a, b, c, d`")
@@ -802,13 +892,18 @@ def _collector_roles(ctx, f):
             continue
         accumulated = U.mutations_of(f, e.id) or [s for s in walk_shallow(f.node) if isinstance(s, ast.AugAssign)
                                                   and isinstance(s.target, ast.Name) and s.target.id == e.id]
-        if not accumulated:
-            continue            # e.g. the add_delay flag
-        roots = U.value_roots(ctx, f, e, follow_calls=True)
+        unzip = None
+        if accumulated:
+            roots = U.value_roots(ctx, f, e, follow_calls=True)
+        else:
+            unzip = _unzip_of(ctx, f, e)
+            if unzip is None:
+                continue        # e.g. the add_delay flag
+            roots = U.value_roots(ctx, f, unzip["value"], follow_calls=True)
         ks = {ROLE_OF_KEY[k] for k in roots["keys"] if k in ROLE_OF_KEY}
         if len(ks) == 1:
             roles[i] = ks.pop()
-            accs[roles[i]] = e.id
+            accs[roles[i]] = {"name": unzip["stage"] if unzip else e.id, "unzip": unzip, "returned": e.id}
     return roles, accs, rets[0]
 
 
@@ -840,9 +935,21 @@ def r5_slot_order(ctx, rid):
             raise AnalysisError(f"{rid}: per-edge loop over `{ep}` not found in {coll.qualname} (unrecognised form)")
     if main:
         loop = main[0]
-        facts = {"loop": norm(loop), "accumulators": accs}
+        facts = {"loop": norm(loop), "accumulators": {r: (a["returned"] if not a["unzip"] else
+                                                          f"{a['returned']} = component {a['unzip']['pos']} of `{a['name']}`") for r, a in accs.items()}}
         problems = []
-        for role, acc in accs.items():
+        checked = set()
+        for role, info in accs.items():
+            acc = info["name"]
+            uz = info["unzip"]
+            if uz is not None:
+                if uz["reordered"]:
+                    problems.append(f"`{norm(uz['stmt'])}` does not walk the per-edge entries front to back")
+                if not (parent(uz["stmt"]) is coll.node and uz["stmt"].lineno > loop.lineno):
+                    raise AnalysisError(f"{rid}: {coll.qual}: `{norm(uz['stmt'])}` does not follow the per-edge loop (unrecognised form)")
+            if acc in checked:
+                continue
+            checked.add(acc)
             stmts = []
             for st in loop.body:        # unconditional statements of the loop body only
                 if isinstance(st, ast.AugAssign) and isinstance(st.op, ast.Add) and isinstance(st.target, ast.Name) and st.target.id == acc:
@@ -1133,6 +1240,6 @@ RULES = [
     ("C09-R2", r2_capacity, 2),            # 3 today; a sibling whose list R1 rejects is skipped here
     ("C09-R3", r3_rounding, 3),            # the conversion + its call sites (5 today; at least one per caller: _process_delays, _add_matrix_delay)
     ("C09-R4", r4_default_delay_matches_write_slot, 2),
-    ("C09-R5", r5_slot_order, 6),
+    ("C09-R5", r5_slot_order, 4),          # accumulation, >= 1 call site, re-pointing loop, flattening (6 today: 3 call sites)
     ("C09-R6", r_perm_identity, 1),
 ]
